@@ -195,6 +195,126 @@ func withoutFreeFDs(f func() error) error {
 	return err
 }
 
+// ---------------------------------------------------------------- a failed Flush, then another one
+
+// RetryCase: the first Flush of a writer fails half-way for a reason of the
+// operating system (file size limit: bbolt's writes get EFBIG).  Whatever is
+// at the path when Flush is called again - what the failed attempt left, or a
+// file somebody else put there in between - is an existing file: Flush must
+// fail and leave it unchanged.  Only if nothing is there may it succeed, and
+// then the index must be complete.
+type RetryCase struct {
+	Data    gen.DataSpec
+	Limit   int // RLIMIT_FSIZE during the first attempt, bytes
+	Between int // 0 nothing, 1 replace by another complete index, 2 replace by random bytes, 3 remove
+	Random  []byte
+}
+
+func (c *RetryCase) Summary() string {
+	return fmt.Sprintf("first Flush under a file size limit of %d bytes, then %s, then Flush again; writer holds %s", c.Limit, []string{"nothing happens", "another complete index is put at the path", "random bytes are put at the path", "the path is removed"}[c.Between], c.Data.Summary())
+}
+
+func withFileSizeLimit(limit int, f func() error) error {
+	var old syscall.Rlimit
+	const rlimitFsize = 1
+	if err := syscall.Getrlimit(rlimitFsize, &old); err != nil {
+		return f()
+	}
+	low := old
+	low.Cur = uint64(limit)
+	if err := syscall.Setrlimit(rlimitFsize, &low); err != nil {
+		return f()
+	}
+	defer syscall.Setrlimit(rlimitFsize, &old)
+	return f()
+}
+
+func retryOracle(c *RetryCase) (firstFailed bool, err error) {
+	dir := fix.CaseDir()
+	defer os.RemoveAll(dir)
+	path := fix.TempPath(dir, "retry") + ".updog"
+	rows := c.Data.Rows()
+	w := updog.NewIndexWriter(path)
+	for _, r := range rows {
+		if _, err := w.AddRow(r); err != nil {
+			return false, fmt.Errorf("AddRow: %v", err)
+		}
+	}
+	ferr := withFileSizeLimit(c.Limit, func() error { return fix.Safe(w.Flush) })
+	if fix.IsPanic(ferr) {
+		return false, fmt.Errorf("first Flush (file size limit %d): %v", c.Limit, ferr)
+	}
+	if ferr == nil {
+		return false, nil // the index fitted under the limit: nothing to see
+	}
+	switch c.Between {
+	case 1:
+		os.Remove(path)
+		if _, err := fix.BuildAt(path, []model.Row{{"somebody": "else"}, {"somebody": "else", "x": "y"}}, fix.WMemFile); err != nil {
+			return true, fmt.Errorf("INFRA: %v", err)
+		}
+	case 2:
+		os.Remove(path)
+		os.WriteFile(path, c.Random, 0o644)
+	case 3:
+		os.Remove(path)
+	}
+	before, derr := digest(path)
+	exists := derr == nil
+	serr := fix.Safe(w.Flush)
+	if fix.IsPanic(serr) {
+		return true, fmt.Errorf("second Flush: %v", serr)
+	}
+	if exists {
+		if serr == nil {
+			return true, fmt.Errorf("the first Flush failed (%v); the second Flush found an existing file at the path and returned no error", ferr)
+		}
+		after, derr := digest(path)
+		if derr != nil {
+			return true, fmt.Errorf("the second Flush failed (%v) but removed the existing file", serr)
+		}
+		if after != before {
+			return true, fmt.Errorf("the second Flush failed (%v) but changed the existing file: %s -> %s", serr, before, after)
+		}
+		return true, nil
+	}
+	if serr != nil {
+		return true, nil // nothing was there and it still fails: allowed
+	}
+	d := model.NewData(rows)
+	idx, _, oerr := fix.Open(path, fix.OpenCfg{CacheCap: -1})
+	if oerr != nil {
+		return true, fmt.Errorf("the second Flush (nothing at the path) returned no error, but its output does not open: %v", oerr)
+	}
+	defer fix.Safe(idx.Close)
+	if perr := fix.ProbeAll(idx, d, fix.ProbeOpts{MaxRows: 300, MaxValues: 600}); perr != nil {
+		return true, fmt.Errorf("the second Flush (nothing at the path) returned no error, but its output is not the writer's content: %v", perr)
+	}
+	return true, nil
+}
+
+func runRetry(t interface{ Fatalf(string, ...any) }, c *RetryCase) {
+	failed, err := retryOracle(c)
+	cl := []string{"retry"}
+	if failed {
+		cl = append(cl, "first-flush-failed-on-file-size-limit")
+	}
+	evid.Case(failed, c.Summary(), cl...)
+	if err != nil && strings.HasPrefix(err.Error(), "INFRA:") {
+		panic(err.Error())
+	}
+	if err != nil {
+		fix.Fail(t, prop, "retry", c, c.Summary(), err)
+	}
+}
+
+func drawRetry(t *rapid.T) *RetryCase {
+	c := &RetryCase{Limit: rapid.SampledFrom([]int{0, 4096, 8192, 16384, 20000, 32768, 40000, 70000}).Draw(t, "limit"), Between: rapid.IntRange(0, 3).Draw(t, "between")}
+	c.Random = rapid.SliceOfN(rapid.Byte(), 1, 3000).Draw(t, "random")
+	c.Data = *gen.Dataset(t, gen.DataOpts{MaxRows: 20, MaxRecipeN: 2500, RecipeProb: 40})
+	return c
+}
+
 // ---------------------------------------------------------------- concurrent creation
 
 // RaceCase: several writers with different contents Flush to one path at the
@@ -494,6 +614,14 @@ func replay(cf *evid.CaseFile) error {
 		}
 		return raceOracle(&c)
 	}
+	if cf.Sub == "retry" {
+		var c RetryCase
+		if err := evid.Decode(cf.Gob, &c); err != nil {
+			return err
+		}
+		_, err := retryOracle(&c)
+		return err
+	}
 	if cf.Sub == "clobber" {
 		var c ClobberCase
 		if err := evid.Decode(cf.Gob, &c); err != nil {
@@ -511,6 +639,7 @@ func replay(cf *evid.CaseFile) error {
 func TestQuick(t *testing.T) {
 	fix.Pinned(t, prop, replay)
 	fix.Check(t, "clobber", 300, func(rt *rapid.T) { runClobber(rt, drawClobber(rt)) })
+	fix.Check(t, "retry", 120, func(rt *rapid.T) { runRetry(rt, drawRetry(rt)) })
 	fix.Check(t, "read", 300, func(rt *rapid.T) { runRead(rt, drawRead(rt)) })
 	fix.Check(t, "race", 15, func(rt *rapid.T) { runRace(rt, drawRace(rt)) })
 }
@@ -520,6 +649,7 @@ func TestThorough(t *testing.T) {
 		fix.Pinned(t, prop, replay)
 	}
 	fix.Check(t, "clobber", 10000, func(rt *rapid.T) { runClobber(rt, drawClobber(rt)) })
+	fix.Check(t, "retry", 2000, func(rt *rapid.T) { runRetry(rt, drawRetry(rt)) })
 	fix.Check(t, "read", 10000, func(rt *rapid.T) { runRead(rt, drawRead(rt)) })
 	fix.Check(t, "race", 300, func(rt *rapid.T) { runRace(rt, drawRace(rt)) })
 }
